@@ -70,6 +70,8 @@ def outcome_matches(ref_out, real_out):
     a, b = ref_out[1], real_out[1]
     if ref_out[0] == "ret":
         return a == b
+    if a[0] == "valueerror":
+        return b[0] == "other" and b[1] == "ValueError"
     if a[0] == "typeerror":
         return b[0] == "typeerror" and all(repr(n) in b[1] for n in a[1])
     if a[0] == "tok" and b[0] == "tok" and a[1].startswith("err") and b[1].startswith("err"):
